@@ -434,8 +434,15 @@ class FakeAEioClient(_FakeEioClientBase):
     async def wait(self):
         pass
 
+    task_per_message = False
+
     async def recv(self, data):
         if self.state == 'connected':
+            if self.task_per_message:
+                # engineio.AsyncClient._receive_packet: _trigger_event('message', run_async=True) starts a task per
+                # message (async_client.py); tasks start in arrival order
+                from . import miniloop
+                return miniloop.create_task(self._contained('message', data))
             return await self._contained('message', data)
 
     async def lose(self):
